@@ -149,10 +149,10 @@ def prop(r):
     sb = orig.clone()
     before = built.text
     try:
-        with time_limit(10):
+        with time_limit(30):
             run_pass(sb, "insert-sync-barrier")
     except PassTimeout:
-        raise Reject("insert-sync-barrier did not terminate within 10 s")
+        raise Reject("insert-sync-barrier did not terminate within 30 s")
     except Exception as e:
         raise Violation(f"insert-sync-barrier:raises:{type(e).__name__}", dict(error=str(e)[:300], before=before))
     try:
@@ -161,13 +161,13 @@ def prop(r):
         raise Violation("insert-sync-barrier:invalid-ir-after-pass", dict(error=str(e)[:300], before=before))
     fin = sb.clone()
     try:
-        with time_limit(10):
+        with time_limit(30):
             run_pass(fin, "dispatch-regions", nb_cores=n)
             fin.verify()
             run_pass(fin, "snax-to-func")
             fin.verify()
     except PassTimeout:
-        raise Reject("dispatch-regions/snax-to-func did not terminate within 10 s")
+        raise Reject("dispatch-regions/snax-to-func did not terminate within 30 s")
     except Exception as e:
         raise Violation(f"dispatch+snax-to-func:raises:{type(e).__name__}", dict(error=str(e)[:300], before=before, synced=to_text(sb)))
 
